@@ -8,12 +8,13 @@ import (
 	"sort"
 	"time"
 
+	"github.com/awslabs/operatorpkg/status"
 	"github.com/samber/lo"
 	corev1 "k8s.io/api/core/v1"
 	"k8s.io/apimachinery/pkg/api/resource"
 	metav1 "k8s.io/apimachinery/pkg/apis/meta/v1"
-	"k8s.io/apimachinery/pkg/types"
 	"k8s.io/apimachinery/pkg/runtime/serializer"
+	"k8s.io/apimachinery/pkg/types"
 	"k8s.io/client-go/kubernetes/scheme"
 	clienttesting "k8s.io/client-go/testing"
 	clocktesting "k8s.io/utils/clock/testing"
@@ -38,10 +39,22 @@ import (
 // c19.pass — whole passes of the real Provisioner with weighted NodePools
 // ---------------------------------------------------------------------------------------------
 
+// CondJ is one stored status condition of a NodePool: its type and status ("True" | "False" | "Unknown").
+type CondJ struct {
+	Type   string `json:"type"`
+	Status string `json:"status"`
+}
+
 type PassPoolJ struct {
-	Name     string            `json:"name"`
-	Weight   *int32            `json:"weight"`
-	Ready    bool              `json:"ready"`
+	Name   string `json:"name"`
+	Weight *int32 `json:"weight"`
+	// Ready: the NodePool's root condition Ready is True. When Conds is absent (older corpus files, c19.reserved) the
+	// harness writes the test builder's all-True conditions for Ready=true and NodeClassReady=False for Ready=false.
+	Ready bool `json:"ready"`
+	// Conds, when present, is the complete status.conditions list stored on the NodePool (possibly empty: a NodePool that
+	// has not been reconciled yet). It is always a list the ConditionSet API produces (the generator builds it through
+	// that API), so the stored root condition Ready is consistent with its dependents.
+	Conds    *[]CondJ          `json:"conds,omitempty"`
 	Static   bool              `json:"static"`
 	Deleting bool              `json:"deleting"`
 	Reqs     []ReqJ            `json:"reqs"`   // template requirements on zone / capacity-type / instance-type
@@ -49,6 +62,83 @@ type PassPoolJ struct {
 	Taints   []string          `json:"taints"` // NoSchedule taints (key only)
 	Types    []TypeJ           `json:"types"`
 	LimitCPU int               `json:"limit_cpu,omitempty"` // spec.limits.cpu, milli-cores (c19.reserved only; 0 = none)
+}
+
+// readyCond: the stored root condition Ready is True
+func readyCond(cs []CondJ) bool {
+	for _, c := range cs {
+		if c.Type == status.ConditionReady {
+			return c.Status == string(metav1.ConditionTrue)
+		}
+	}
+	return false
+}
+
+// isReady: what the input says about the pool's readiness
+func (p PassPoolJ) isReady() bool {
+	if p.Conds != nil {
+		return readyCond(*p.Conds)
+	}
+	return p.Ready
+}
+
+func (p PassPoolJ) usable() bool { return p.isReady() && !p.Static && !p.Deleting }
+
+// readinessLabel classifies how the pool's readiness is expressed on the object (input distribution)
+func (p PassPoolJ) readinessLabel() string {
+	if p.Conds == nil {
+		return lo.Ternary(p.Ready, "ready=True", "ready=False")
+	}
+	if len(*p.Conds) == 0 {
+		return "ready=no-conditions"
+	}
+	for _, c := range *p.Conds {
+		if c.Type == status.ConditionReady {
+			return "ready=" + c.Status
+		}
+	}
+	return "ready=absent"
+}
+
+// genConds draws the status conditions of one NodePool by driving the real ConditionSet API (operatorpkg) the way the
+// NodePool controllers do: the dependents ValidationSucceeded / NodeClassReady and the independent
+// NodeRegistrationHealthy are set True / False / Unknown or left alone, in a random order; the root condition Ready is
+// whatever the API derives. A NodePool nobody has reconciled yet has no conditions at all.
+func genConds(r *rand.Rand, mostlyReady bool) []CondJ {
+	np := &v1.NodePool{}
+	np.CreationTimestamp = metav1.NewTime(epoch)
+	apply := func(t string, st int) {
+		switch st {
+		case 0:
+			np.StatusConditions().SetTrue(t)
+		case 1:
+			np.StatusConditions().SetFalse(t, "NotReady", "not ready")
+		case 2:
+			np.StatusConditions().SetUnknown(t)
+		} // 3: not set by anybody (the ConditionSet initialises missing dependents to Unknown once it is used)
+	}
+	if mostlyReady {
+		apply(v1.ConditionTypeValidationSucceeded, 0)
+		apply(v1.ConditionTypeNodeClassReady, 0)
+		// registration health is no dependent of Ready: a pool with failing registrations is still a ready pool
+		apply(v1.ConditionTypeNodeRegistrationHealthy, []int{2, 2, 0, 1, 3}[r.IntN(5)])
+	} else {
+		if r.IntN(6) == 0 {
+			return []CondJ{} // not reconciled yet
+		}
+		ts := []string{v1.ConditionTypeValidationSucceeded, v1.ConditionTypeNodeClassReady, v1.ConditionTypeNodeRegistrationHealthy}
+		r.Shuffle(len(ts), func(a, b int) { ts[a], ts[b] = ts[b], ts[a] })
+		for _, t := range ts {
+			apply(t, []int{0, 0, 0, 1, 2, 2, 3}[r.IntN(7)])
+		}
+	}
+	out := []CondJ{}
+	for _, c := range np.Status.Conditions {
+		out = append(out, CondJ{Type: c.Type, Status: string(c.Status)})
+	}
+	// the API orders the list by transition time (wall clock): canonical order for a reproducible input
+	sort.Slice(out, func(a, b int) bool { return out[a].Type < out[b].Type })
+	return out
 }
 
 type PassPodJ struct {
@@ -60,6 +150,7 @@ type PassPodJ struct {
 }
 
 type PassIn struct {
+	Stream      string      `json:"stream,omitempty"` // which generator stream drew the case (labels only)
 	Pools       []PassPoolJ `json:"pools"`
 	Pods        []PassPodJ  `json:"pods"`
 	CPURequests int         `json:"cpu_requests"` // options.CPURequests: ceil(/1000) workers evaluate the templates
@@ -145,7 +236,106 @@ func genPoolReqs(r *rand.Rand, typeNames []string, strict int) []ReqJ {
 	return out
 }
 
+// genReadiness: one pool in `oneIn` gets conditions drawn freely (Ready False / Unknown / True through either dependent,
+// or no conditions at all), the others the conditions of a healthy reconciled pool
+func genReadiness(r *rand.Rand, p *PassPoolJ, oneIn int) {
+	conds := genConds(r, r.IntN(oneIn) != 0)
+	p.Conds = &conds
+	p.Ready = readyCond(conds)
+}
+
+// genPassZonal — the stream "one pool opens several NodeClaims whose price rankings differ": a uniform catalog (every
+// type is offered in every zone × capacity type of the case, mostly big enough for every pod, so a pod's requirements
+// exclude few or no instance types and all NodeClaims of a pool start from the same option list), prices drawn
+// independently per (type, zone, capacity type) so that the ranking under one zone / capacity type differs from the
+// ranking under another, small pods pinned to different zones / capacity types, and a truncation bound below the
+// catalog size. What one NodeClaim's ordering and truncation does must not show in another NodeClaim.
+func genPassZonal(r *rand.Rand, t core.Tier) any {
+	in := PassIn{Stream: "zonal", Pools: []PassPoolJ{}, Pods: []PassPodJ{}}
+	zs := append([]string{}, zones...)
+	r.Shuffle(len(zs), func(a, b int) { zs[a], zs[b] = zs[b], zs[a] })
+	zs = zs[:2+r.IntN(2)]
+	cs := append([]string{}, cts...)
+	r.Shuffle(len(cs), func(a, b int) { cs[a], cs[b] = cs[b], cs[a] })
+	cs = cs[:1+r.IntN(2)]
+	nCat := 3 + r.IntN(6)
+	if t == core.Thorough && r.IntN(4) == 0 {
+		nCat = 8 + r.IntN(13)
+	}
+	uniformSize := r.IntN(10) < 7
+	var catalog []TypeJ
+	for i := 0; i < nCat; i++ {
+		ty := TypeJ{Name: fmt.Sprintf("t%02d", i), CPU: 16000, Pods: 110, Overhead: []int{0, 100}[r.IntN(2)]}
+		if !uniformSize {
+			ty.CPU = []int{2000, 4000, 8000, 16000}[r.IntN(4)]
+			ty.Pods = []int{1, 2, 110, 110}[r.IntN(4)]
+		}
+		for _, z := range zs {
+			for _, c := range cs {
+				price := 1 + r.IntN(4000)
+				if r.IntN(5) == 0 {
+					price = pricePool[r.IntN(len(pricePool))] // ties across types
+				}
+				ty.Offerings = append(ty.Offerings, OffJ{Zone: z, Ct: c, Price: price, Avail: r.IntN(25) != 0})
+			}
+		}
+		catalog = append(catalog, ty)
+	}
+	nPools := []int{1, 1, 2, 2, 3}[r.IntN(5)]
+	used := map[string]bool{}
+	for i := 0; i < nPools; i++ {
+		p := PassPoolJ{Labels: map[string]string{}, Taints: []string{}, Reqs: []ReqJ{}}
+		for {
+			p.Name = []string{"a", "ab", "b", "default", "np-1", "np-2", "z"}[r.IntN(7)]
+			if !used[p.Name] {
+				used[p.Name] = true
+				break
+			}
+		}
+		if r.IntN(5) != 0 {
+			p.Weight = lo.ToPtr([]int32{10, 50, 50, 100}[r.IntN(4)])
+		}
+		genReadiness(r, &p, 10)
+		p.Types = append([]TypeJ{}, catalog...)
+		if r.IntN(4) == 0 {
+			p.Types = lo.Filter(catalog, func(TypeJ, int) bool { return r.IntN(4) != 0 })
+		}
+		if p.Types == nil {
+			p.Types = []TypeJ{}
+		}
+		r.Shuffle(len(p.Types), func(a, b int) { p.Types[a], p.Types[b] = p.Types[b], p.Types[a] })
+		if r.IntN(5) == 0 { // a template requirement that excludes no offering zone of the case, or one of them
+			p.Reqs = append(p.Reqs, ReqJ{Key: zoneKey, Op: "In", Vals: append([]string{}, zs[:1+r.IntN(len(zs))]...)})
+		}
+		in.Pools = append(in.Pools, p)
+	}
+	nPods := 2 + r.IntN(5)
+	for i := 0; i < nPods; i++ {
+		p := PassPodJ{Name: fmt.Sprintf("pod-%02d", i), CPU: []int{100, 250, 500, 1000}[r.IntN(4)], Sel: []ReqJ{}, Aff: []ReqJ{}, Tol: []string{}}
+		switch x := r.IntN(10); {
+		case x < 6:
+			p.Sel = append(p.Sel, ReqJ{Key: zoneKey, Op: "In", Vals: []string{zs[r.IntN(len(zs))]}})
+		case x < 7:
+			p.Aff = append(p.Aff, ReqJ{Key: zoneKey, Op: "NotIn", Vals: []string{zs[r.IntN(len(zs))]}})
+		}
+		if len(cs) > 1 && r.IntN(3) == 0 {
+			p.Sel = append(p.Sel, ReqJ{Key: ctKey, Op: "In", Vals: []string{cs[r.IntN(len(cs))]}})
+		}
+		in.Pods = append(in.Pods, p)
+	}
+	in.CPURequests = []int{1000, 1000, 2000, 4000, 8000, 16000}[r.IntN(6)]
+	in.MaxTypes = []int{1, 1, 2, 2, 3, 4}[r.IntN(6)]
+	in.Reps = 2
+	if t == core.Thorough {
+		in.Reps = 4
+	}
+	return in
+}
+
 func genPass(r *rand.Rand, t core.Tier) any {
+	if r.IntN(6) == 0 {
+		return genPassZonal(r, t)
+	}
 	in := PassIn{Pools: []PassPoolJ{}, Pods: []PassPodJ{}}
 	nPools := []int{1, 2, 2, 3, 3, 4, 4, 5, 5, 5}[r.IntN(10)]
 	// a shared catalog: pools mostly offer the same instance types (as one provider does), sometimes their own
@@ -175,13 +365,12 @@ func genPass(r *rand.Rand, t core.Tier) any {
 			p.Weight = lo.ToPtr(int32(1 + r.IntN(100)))
 		}
 		switch r.IntN(30) {
-		case 0:
-			p.Ready = false
 		case 1:
 			p.Static = true
 		case 2:
 			p.Deleting = true
 		}
+		genReadiness(r, &p, 7)
 		// instance types
 		switch x := r.IntN(10); {
 		case x < 6:
@@ -339,7 +528,23 @@ func runPassOnce(in *PassIn) (*PassRun, error) {
 		if p.Static {
 			np.Spec.Replicas = lo.ToPtr(int64(1))
 		}
-		if !p.Ready {
+		if p.Conds != nil {
+			// the stored list, verbatim (reasons and times are not part of the input)
+			np.Status.Conditions = nil
+			for _, c := range *p.Conds {
+				np.Status.Conditions = append(np.Status.Conditions, status.Condition{
+					Type: c.Type, Status: metav1.ConditionStatus(c.Status), Reason: c.Type, Message: "verif",
+					LastTransitionTime: np.CreationTimestamp,
+				})
+			}
+			// only lists the ConditionSet API itself leaves alone are inside the model: on a hand-made list whose root
+			// disagrees with its dependents the API would rewrite the root the moment the object is looked at
+			chk := np.DeepCopy()
+			if root := chk.StatusConditions().Root(); len(*p.Conds) > 0 && lo.ContainsBy(*p.Conds, func(c CondJ) bool { return c.Type == status.ConditionReady }) &&
+				(root.IsTrue() != readyCond(*p.Conds)) {
+				return nil, fmt.Errorf("nodepool %s: stored conditions are not a list the ConditionSet API produces", p.Name)
+			}
+		} else if !p.Ready {
 			np.StatusConditions().SetFalse(v1.ConditionTypeNodeClassReady, "NotReady", "node class is not ready")
 		}
 		if p.Deleting {
@@ -347,6 +552,10 @@ func runPassOnce(in *PassIn) (*PassRun, error) {
 		}
 		if err := kube.Create(ctx, np); err != nil {
 			return nil, fmt.Errorf("create nodepool: %w", err)
+		}
+		stored := &v1.NodePool{}
+		if err := kube.Get(ctx, types.NamespacedName{Name: p.Name}, stored); err != nil || len(stored.Status.Conditions) != len(np.Status.Conditions) {
+			return nil, fmt.Errorf("nodepool %s: the status conditions were not stored as given (%v)", p.Name, err)
 		}
 		if p.Deleting { // with a finalizer present the fake client only sets the deletionTimestamp
 			if err := kube.Delete(ctx, np); err != nil {
@@ -484,11 +693,19 @@ func passLabels(raw json.RawMessage, impl any) []string {
 	var in PassIn
 	json.Unmarshal(raw, &in)
 	l := []string{fmt.Sprintf("pools=%d", len(in.Pools)), fmt.Sprintf("workers=%d", max(1, (in.CPURequests+999)/1000)), fmt.Sprintf("maxTypes=%d", in.MaxTypes)}
+	if in.Stream != "" {
+		l = append(l, "stream="+in.Stream)
+	}
 	ws := map[int32]int{}
 	for _, p := range in.Pools {
 		ws[lo.FromPtr(p.Weight)]++
-		if !p.Ready || p.Static || p.Deleting {
+		if !p.usable() {
 			l = append(l, "unusable-pool")
+		}
+		l = append(l, "pool:"+p.readinessLabel())
+		// a pool that is not ready (for whatever reason) outranks a usable one: its weight must not count
+		if !p.isReady() && lo.ContainsBy(in.Pools, func(q PassPoolJ) bool { return q.usable() && lo.FromPtr(q.Weight) < lo.FromPtr(p.Weight) }) {
+			l = append(l, "unready-pool-outranks-usable-pool:"+p.readinessLabel())
 		}
 	}
 	for _, c := range ws {
@@ -533,6 +750,28 @@ func passLabels(raw json.RawMessage, impl any) []string {
 					break
 				}
 			}
+			// several NodeClaims of one pool whose instance types were cut to different sets: their orderings differ
+			perPool := map[string][]ClaimJ{}
+			for _, c := range run.Claims {
+				perPool[c.Pool] = append(perPool[c.Pool], c)
+			}
+			several, differ := false, false
+			for _, cs := range perPool {
+				if len(cs) > 1 {
+					several = true
+					for _, c := range cs[1:] {
+						if len(c.Types) == in.MaxTypes && fmt.Sprint(c.Types) != fmt.Sprint(cs[0].Types) {
+							differ = true
+						}
+					}
+				}
+			}
+			if several {
+				l = append(l, "several-claims-in-one-pool")
+			}
+			if differ {
+				l = append(l, "claims-of-one-pool-cut-differently")
+			}
 		}
 	}
 	return l
@@ -575,7 +814,7 @@ func selfContradictoryCustomKey(in PassIn) bool {
 func passOp() *core.Op {
 	return &core.Op{
 		Name: "c19.pass",
-		Doc:  "whole passes of the real Provisioner (Schedule + CreateNodeClaims on the fake client, fake cloud provider) with 1..5 weighted NodePools (ties, nil weights, not-ready/static/deleting pools, taints, template labels and requirements, per-pool catalogs with price ties), 1..6 pods without inter-pod constraints, 1/2/5/8 template-evaluation workers, MaxInstanceTypes 1/2/3/5/600; each pass repeated on fresh worlds; observed: NodePool label, pods and instance-type requirement of every created NodeClaim",
+		Doc:  "whole passes of the real Provisioner (Schedule + CreateNodeClaims on the fake client, fake cloud provider) with 1..5 weighted NodePools (ties, nil weights, static/deleting pools, status conditions written through the real ConditionSet API: Ready True / False / Unknown via either dependent, registration health set or not, or no conditions at all; taints, template labels and requirements, per-pool catalogs with price ties), 1..6 pods without inter-pod constraints, 1/2/5/8 template-evaluation workers, MaxInstanceTypes 1/2/3/5/600; one case in six from the stream zonal (uniform catalog priced independently per zone × capacity type, small pods pinned to different zones / capacity types, MaxInstanceTypes 1..4 below the catalog size: several NodeClaims of one pool start from the same option list and must be ordered and cut independently); each pass repeated on fresh worlds; observed: NodePool label, pods and instance-type requirement of every created NodeClaim",
 		N:    n(700, 3000),
 		Gen:  genPass,
 		Impl: implPass,
@@ -585,7 +824,7 @@ func passOp() *core.Op {
 			has := func(s string) bool { return lo.Contains(ls, s) }
 			return !has("claims=0") && (has("weight-tie") || has("fallback-to-lower-pool") || has("truncated-or-exact"))
 		},
-		Labels:    passLabels,
+		Labels: passLabels,
 		Signature: func(raw json.RawMessage, _ any) string {
 			var in PassIn
 			json.Unmarshal(raw, &in)
